@@ -76,6 +76,27 @@ def run(rep, ctx, tier):
         fr = fresh_generator_calls(f, g)
         rep.add("R2", "control:draw-detector", bool(d), "positive control: %d draw site(s) found in KZG10::setup" % len(d), b.span)
         rep.add("R2", "control:generator-detector", bool(fr), "positive control: %d fresh-generator call(s) found in KZG10::setup" % len(fr), b.span)
+    # all generators of the IPA parameters come out of ONE call of the derivation helper: `sample_generators(n)` is a
+    # function of n alone, so the outputs of two calls share a prefix and generators would coincide
+    b = f.find1("setup", self_adt=S["ipa"]["adt"], trait=PC)
+    if b is None:
+        rep.add("R2", "ipa.setup:anchor", False, "IPA setup not found (fail closed)", None)
+    else:
+        from ..rules.rng import cyclic_blocks
+        sites = []
+        scope = f.closure([b.id], S["ipa"]["adt"])
+        for bid in sorted(scope):
+            bb = f.bodies[bid]
+            cyc = cyclic_blocks(bb)
+            for i, t in bb.calls():
+                if (t.get("callee") or "").endswith("::sample_generators"):
+                    sites.append((t["span"], i in cyc or bb.kind == "Closure"))
+        ok = len(sites) == 1 and not sites[0][1]
+        rep.add("R2", "ipa.setup:one-generator-derivation", ok,
+                "every generator of the parameters comes from the single call of sample_generators at %s" % sites[0][0] if ok else
+                ("sample_generators is called %d times (or in a loop) in setup: it is a function of the count alone, so two calls "
+                 "return overlapping generators" % len(sites)) if sites else "no call of sample_generators found in setup (fail closed)",
+                sites[0][0] if sites else b.span)
     # refusals
     rows = []
     for sk in ("marlin_kzg10", "sonic_kzg10", "ipa", "marlin_pst13"):
